@@ -1,0 +1,86 @@
+//go:build verif
+
+package geom
+
+// Contracts for Area / Length / Centroid (C14), over the reals: the ring area
+// is the shoelace sum, polygon area is shell minus holes (signed: plain sum),
+// lengths are sums of segment lengths.
+
+//@ prop C14
+
+//@ pred PX(s, k) = s.floats[k*Dim(s.ctype)]
+//@ pred PY(s, k) = s.floats[k*Dim(s.ctype)+1]
+// shoelace sum over the first k segments of s
+//@ recfun ShoeSum(s, k): float = ite(k <= 0, float(0), ShoeSum(s, k-1) + (PX(s, k) + PX(s, k-1)) * (PY(s, k) - PY(s, k-1)))
+
+//@ func signedAreaOfLinearRing
+//@   mode real
+//@   split lr.seq.ctype 0 1 2 3
+//@   ensures transform == nil ==> result == ShoeSum(lr.seq, NPts(lr.seq) - 1) / 2
+//@   ensures len(lr.seq.floats) == 0 ==> result == 0
+//@   loop 0 invariant 0 <= i && i <= n - 1 && n == NPts(seq) && same(seq, lr.seq) && (transform == nil ==> pt1.X == PX(seq, i) && pt1.Y == PY(seq, i) && sum == ShoeSum(seq, i))
+
+// area of the ring ls by the shoelace formula
+//@ pred RingA(ls) = ShoeSum(ls.seq, NPts(ls.seq) - 1) / 2
+// holes are rings[1..]: signed sum and sum of magnitudes over the first k holes
+//@ recfun HoleSigned(p, k): float = ite(k <= 0, float(0), HoleSigned(p, k-1) + RingA(p.rings[k]))
+//@ recfun HoleAbs(p, k): float = ite(k <= 0, float(0), HoleAbs(p, k-1) + abs(RingA(p.rings[k])))
+
+//@ prop C14,C16,C20,C10
+//@ func Polygon.Area
+//@   mode real
+//@   ensures len(p.rings) == 0 ==> result == 0
+//@   ensures len(p.rings) > 0 && ufn(areaopts, areaOptionSet, opts).transform == nil && ufn(areaopts, areaOptionSet, opts).signed ==> result == RingA(p.rings[0]) + HoleSigned(p, len(p.rings) - 1)
+//@   ensures len(p.rings) > 0 && ufn(areaopts, areaOptionSet, opts).transform == nil && !ufn(areaopts, areaOptionSet, opts).signed ==> result == abs(RingA(p.rings[0])) - HoleAbs(p, len(p.rings) - 1)
+//@   loop 0 invariant 0 <= i && i <= n && n == max(0, len(p.rings) - 1) && same(os, ufn(areaopts, areaOptionSet, opts))
+//@   loop 0 invariant len(p.rings) > 0 && os.transform == nil && os.signed ==> totalArea == RingA(p.rings[0]) + HoleSigned(p, i)
+//@   loop 0 invariant len(p.rings) > 0 && os.transform == nil && !os.signed ==> totalArea == abs(RingA(p.rings[0])) - HoleAbs(p, i)
+//@   loop 0 invariant len(p.rings) == 0 ==> totalArea == 0
+//@ prop C14
+
+// ---- Length ----
+//@ pred SegLen(s, k) = fsqrt((PX(s, k-1) - PX(s, k)) * (PX(s, k-1) - PX(s, k)) + (PY(s, k-1) - PY(s, k)) * (PY(s, k-1) - PY(s, k)))
+//@ recfun LenSum(s, k): float = ite(k <= 0, float(0), LenSum(s, k-1) + SegLen(s, k))
+//@ recfun MLSLen(m, k): float = ite(k <= 0, float(0), MLSLen(m, k-1) + LenSum(m.lines[k-1].seq, NPts(m.lines[k-1].seq) - 1))
+
+//@ prop C14,C16,C20,C10
+//@ func LineString.Length
+//@   mode real
+//@   split s.seq.ctype 0 1 2 3
+//@   ensures result == LenSum(s.seq, NPts(s.seq) - 1)
+//@   loop 0 invariant 0 <= i && n == NPts(s.seq) && (n >= 1 ==> i <= n - 1) && (n == 0 ==> i == 0) && sum == LenSum(s.seq, i)
+
+//@ func MultiLineString.Length
+//@   mode real
+//@   ensures result == MLSLen(m, len(m.lines))
+//@   loop 0 invariant -1 <= rangeindex && rangeindex < len(m.lines) && sum == MLSLen(m, rangeindex + 1)
+
+// ---- MultiPolygon area: sum of the member areas ----
+//@ pred PolyA(p, sg) = ite(len(p.rings) == 0, float(0), ite(sg, RingA(p.rings[0]) + HoleSigned(p, len(p.rings) - 1), abs(RingA(p.rings[0])) - HoleAbs(p, len(p.rings) - 1)))
+//@ recfun MPAreaSum(m, k, sg): float = ite(k <= 0, float(0), MPAreaSum(m, k-1, sg) + PolyA(m.polys[k-1], sg))
+//@ func MultiPolygon.Area
+//@   mode real
+//@   ensures ufn(areaopts, areaOptionSet, opts).transform == nil ==> result == MPAreaSum(m, len(m.polys), ufn(areaopts, areaOptionSet, opts).signed)
+//@   loop 0 invariant 0 <= i && i <= n && n == len(m.polys) && (ufn(areaopts, areaOptionSet, opts).transform == nil ==> area == MPAreaSum(m, i, ufn(areaopts, areaOptionSet, opts).signed))
+
+// Polygon.Centroid (ring centroids weighted by +|shell area| and -|hole area|
+// over the net area) is NOT under contract: its local []float64 of ring areas
+// lives in the same float64 heap the recursive area functions read, and the
+// engine has no frame lemma for recursive spec functions across such stores.
+//@ func Polygon.Centroid
+//@   trusted
+
+// ---- point centroid of a collection: only non-empty points count ----
+//@ recfun MPFull(mp, k): int = ite(k <= 0, 0, MPFull(mp, k-1) + ite(mp.points[k-1].full, 1, 0))
+//@ recfun MPSumX(mp, k): float = ite(k <= 0, float(0), MPSumX(mp, k-1) + ite(mp.points[k-1].full, mp.points[k-1].coords.XY.X, float(0)))
+//@ recfun MPSumY(mp, k): float = ite(k <= 0, float(0), MPSumY(mp, k-1) + ite(mp.points[k-1].full, mp.points[k-1].coords.XY.Y, float(0)))
+//@ prop C14
+//@ func GeometryCollection.pointCentroid$1
+//@   mode real
+//@   requires GShape(g) && GInv(g)
+//@   ensures g.gtype == 1 ==> numPoints == old(numPoints) + ite(deref(g.ptr, Point).full, 1, 0)
+//@   ensures g.gtype == 1 && deref(g.ptr, Point).full ==> sumPoints.X == old(sumPoints.X) + deref(g.ptr, Point).coords.XY.X && sumPoints.Y == old(sumPoints.Y) + deref(g.ptr, Point).coords.XY.Y
+//@   ensures g.gtype == 4 ==> numPoints == old(numPoints) + MPFull(deref(g.ptr, MultiPoint), len(deref(g.ptr, MultiPoint).points))
+//@   ensures g.gtype == 4 ==> sumPoints.X == old(sumPoints.X) + MPSumX(deref(g.ptr, MultiPoint), len(deref(g.ptr, MultiPoint).points)) && sumPoints.Y == old(sumPoints.Y) + MPSumY(deref(g.ptr, MultiPoint), len(deref(g.ptr, MultiPoint).points))
+//@   ensures g.gtype != 1 && g.gtype != 4 ==> numPoints == old(numPoints) && same(sumPoints, old(sumPoints))
+//@   loop 0 invariant 0 <= i && i <= len(mp.points) && g.gtype == 4 && same(mp, deref(g.ptr, MultiPoint)) && numPoints == old(numPoints) + MPFull(mp, i) && sumPoints.X == old(sumPoints.X) + MPSumX(mp, i) && sumPoints.Y == old(sumPoints.Y) + MPSumY(mp, i)
